@@ -1,0 +1,5 @@
+//go:build !verif
+
+package exec
+
+func verifGate(z *Interpreter, point string) {}
